@@ -127,7 +127,9 @@ def _apply_filters(r, filters):
         raise ValueError("one filter kind per side")
     kind = kinds.pop()
     names = [n for _, n in filters]
-    arg = names[0] if len(names) == 1 else BATCH[-1](names)
+    # batches: list or tuple (both are Sequence[str]); chosen by the content unless a check asks for one of them
+    ctor = BATCH[-1] if len(BATCH) > 1 else (tuple if sum(map(len, names)) % 2 else list)
+    arg = names[0] if len(names) == 1 else ctor(names)
     if kind == "name":
         return r.are_named(arg)
     if kind == "sub":
@@ -220,9 +222,18 @@ def temp_project(files, root_name="proj"):
         shutil.rmtree(base, ignore_errors=True)
 
 
+_SCANS = [0]
+
+
 def scan(root, module_path=None, **kw):
+    """The real entry point. About every third call spells the two paths with a trailing separator (the same directories)."""
     from pytestarch import get_evaluable_architecture
-    return get_evaluable_architecture(root, module_path or root, **kw)
+    import zlib
+    mp = module_path or root
+    # (decided by the call's content, so that a replay spells the paths like the recorded run)
+    if zlib.crc32((os.path.basename(mp.rstrip(os.sep)) + repr(sorted(kw.items(), key=str))).encode()) % 3 == 0:
+        root, mp = root.rstrip(os.sep) + os.sep, mp.rstrip(os.sep) + os.sep
+    return get_evaluable_architecture(root, mp, **kw)
 
 
 # ---------------------------------------------------------------------------------------------- bounded-check result
